@@ -27,7 +27,11 @@ def _known(cls):
     return lambda case, impl, reason: case.startswith("parse") and ("(class %s)" % cls) in reason
 
 
-KNOWN = {"path_domain_not_validated": _known("domain"), "path_empty_atom": _known("empty-atom"),
+def _known_rrvs(case, impl, reason):
+    return case.endswith("LENIENT=rrvs-trailer") and "was not refused with 5xx before the backend" in reason
+
+
+KNOWN = {"rrvs_trailer_ignored": _known_rrvs, "path_domain_not_validated": _known("domain"), "path_empty_atom": _known("empty-atom"),
          "path_octet_outside_grammar": _known("octet-outside-grammar"), "path_quoted_string_content": _known("bad-quoted-string")}
 
 SYM = [b"<", b">", b"@", b":", b",", b'"', b"\\", b".", b" ", b"\t", b"a", b"[", b"]", b"\x00", "é".encode(), b"-"]
@@ -182,7 +186,9 @@ def reference_cases(tier, rng):
         rcpt_case(ALL, toks, xp)
     # one faulty parameter, alone or among good ones (the refusal does not depend on the order in which parameters are examined)
     mbad = [b"SIZE=abc", b"SIZE=", b"SIZE=-1", b"SIZE=1=2", b"BODY=9BIT", b"BODY=", b"RET=SOME", b"RET=", b"ENVID=", b"ENVID=a+2", b"ENVID=a+zz", b"ENVID=a+07b",
-            b"ENVID=a=b", b"AUTH=+ZZ", b"AUTH=a+20b", b"AUTH=", b"XYZ=1", b"FOO", b"=1", b"SMTPUTF8=1=2"]
+            b"ENVID=a=b", b"AUTH=+ZZ", b"AUTH=a+20b", b"AUTH=", b"XYZ=1", b"FOO", b"=1", b"SMTPUTF8=1=2",
+            # a parameter that takes no value, given one (RFC 6531 3.4, RFC 8689 2)
+            b"SMTPUTF8=x", b"REQUIRETLS=1", b"smtputf8=yes", b"REQUIRETLS=REQUIRETLS"]
     mgood = [b"SIZE=5", b"BODY=8BITMIME", b"RET=FULL", b"ENVID=ok", b"SMTPUTF8", b"AUTH=<>"]
     for bad in mbad:
         mail_case(ALL, [bad], "REFUSED:M")
@@ -200,6 +206,11 @@ def reference_cases(tier, rng):
             others = [t for t in rng.sample(rgood, rng.randrange(1, 3)) if t.split(b"=")[0].upper() != bad.split(b"=")[0].upper()]
             toks = others + [bad]; rng.shuffle(toks)
             rcpt_case(ALL, toks, "REFUSED:R")
+    # RFC 7293: rrvs-param = "RRVS=" date-time [ ";" ( "C" / "R" ) ] — anything else behind the semicolon is malformed (the server ignores
+    # it, and the pinned suite wants it so: TestServerRRVS sends ";ign0r3.th1s;othr_stuff" — known finding)
+    for t in (b"RRVS=2020-01-02T03:04:05Z;garbage", b"RRVS=2020-01-02T03:04:05Z;C;x", b"rrvs=2020-01-02T03:04:05+01:00;ign0r3.th1s;othr_stuff"):
+        rcpt_case(ALL, [t], "REFUSED:R\tLENIENT=rrvs-trailer")
+        rcpt_case(ALL, [b"NOTIFY=SUCCESS", t], "REFUSED:R\tLENIENT=rrvs-trailer")
     # parameters of disabled extensions
     for flag, tok in (("utf8", b"SMTPUTF8"), ("reqtls", b"REQUIRETLS"), ("binmime", b"BODY=BINARYMIME"), ("dsn", b"RET=FULL"), ("dsn", b"ENVID=e")):
         for t in (tok, tok.lower(), _recase(tok, rng)):
